@@ -17,6 +17,7 @@ const (
 	NTag                       // evaluate switch tag into hidden cell Aux
 	NRangeInit                 // evaluate range operand, index := 0
 	NRangeBind                 // key, value := idx, x[idx]; idx++
+	NRangeNext                 // range over a list iterator: cursor = cursor.next; idx++ (runs after the body, as in the iterator)
 )
 
 type INode struct {
@@ -33,6 +34,7 @@ const (
 	CExpr CondKind = iota
 	CCaseEq
 	CRangeHas
+	CCell // the Bool value of the hidden cell Aux (result of a callback body inlined by callbackLoop)
 )
 
 type Cond struct {
@@ -81,6 +83,25 @@ type CFG struct {
 	Order  []*Block // topological order of the acyclic graph (back edges removed)
 	rngN   int
 	tagN   int
+	// Callback: synthetic range statements standing for `slices.ContainsFunc(seq, func(p T) bool {...})` (see callbackLoop);
+	// the value is the literal's parameter, which receives the element.
+	Callback map[*ast.RangeStmt]*ast.Ident
+}
+
+// LowerOpts: what the lowering needs to know about types (the lowering itself is purely syntactic).
+type LowerOpts struct {
+	// FuncRange: the range statement iterates over one of the unit's list iterators (range over func): the cursor advances
+	// after the body, as in the iterator's own loop.
+	FuncRange func(rs *ast.RangeStmt) bool
+	// CallbackLoop: e is a call slices.ContainsFunc(seq, func literal) that is to be executed by its definition
+	// (`for _, v := range seq { if f(v) { return true } }; return false`) with the literal's body in place of f(v).
+	CallbackLoop func(e ast.Expr) (call *ast.CallExpr, lit *ast.FuncLit, ok bool)
+}
+
+// cbCtx: lowering the body of a callback literal in place: `return e` means "the callback returns e".
+type cbCtx struct {
+	aux         string
+	found, next *Block
 }
 
 type lowerer struct {
@@ -95,6 +116,8 @@ type lowerer struct {
 	ft        *Block // fallthrough target
 	err       error
 	rngName   map[*ast.RangeStmt]string
+	opts      *LowerOpts
+	cb        *cbCtx
 }
 
 func (l *lowerer) newBlock(pos token.Pos, comment string) *Block {
@@ -138,9 +161,12 @@ func (l *lowerer) label(name string, pos token.Pos) *Block {
 	return b
 }
 
-func BuildCFG(body *ast.BlockStmt) (*CFG, error) {
-	g := &CFG{}
-	l := &lowerer{g: g, labels: map[string]*Block{}, lblBrk: map[string]*Block{}, lblCont: map[string]*Block{}, rngName: map[*ast.RangeStmt]string{}}
+func BuildCFG(body *ast.BlockStmt, opts *LowerOpts) (*CFG, error) {
+	g := &CFG{Callback: map[*ast.RangeStmt]*ast.Ident{}}
+	if opts == nil {
+		opts = &LowerOpts{}
+	}
+	l := &lowerer{g: g, labels: map[string]*Block{}, lblBrk: map[string]*Block{}, lblCont: map[string]*Block{}, rngName: map[*ast.RangeStmt]string{}, opts: opts}
 	g.Entry = l.newBlock(body.Pos(), "entry")
 	l.cur = g.Entry
 	l.stmts(body.List)
@@ -250,12 +276,22 @@ func (l *lowerer) stmt(s ast.Stmt) {
 		l.cur = head
 		head.ScopePos = s.Body.Lbrace + 1
 		l.branch(&Cond{Kind: CRangeHas, Range: s}, body, done)
-		l.push(done, head, lbl)
+		post := head
+		if l.opts.FuncRange != nil && l.opts.FuncRange(s) {
+			// range over a list iterator: `continue` and the end of the body go to the advance step
+			post = l.newBlock(s.Body.Rbrace, "range.next")
+		}
+		l.push(done, post, lbl)
 		l.cur = body
 		l.add(&INode{Kind: NRangeBind, Range: s})
 		l.stmts(s.Body.List)
-		l.jump(head)
+		l.jump(post)
 		l.pop(lbl)
+		if post != head {
+			l.cur = post
+			l.add(&INode{Kind: NRangeNext, Range: s})
+			l.jump(head)
+		}
 		l.cur = done
 	case *ast.SwitchStmt:
 		lbl := l.pendLabel
@@ -343,6 +379,31 @@ func (l *lowerer) stmt(s ast.Stmt) {
 		if l.cur == nil || l.cur.Kind != TNone {
 			l.cur = l.newBlock(s.Pos(), "unreachable return")
 		}
+		if l.cb != nil {
+			// inside an inlined callback body: the callback returns this value
+			if len(s.Results) != 1 {
+				l.err = fmt.Errorf("callback literal must return one value")
+				return
+			}
+			l.add(&INode{Kind: NTag, Expr: s.Results[0], Aux: l.cb.aux})
+			l.branch(&Cond{Kind: CCell, Aux: l.cb.aux}, l.cb.found, l.cb.next)
+			l.cur = nil
+			return
+		}
+		if len(s.Results) == 1 && l.opts.CallbackLoop != nil {
+			neg, e := false, unparenIR(s.Results[0])
+			for {
+				u, ok := e.(*ast.UnaryExpr)
+				if !ok || u.Op != token.NOT {
+					break
+				}
+				neg, e = !neg, unparenIR(u.X)
+			}
+			if call, lit, ok := l.opts.CallbackLoop(e); ok {
+				l.callbackLoop(s, call, lit, neg)
+				return
+			}
+		}
 		l.cur.Kind = TReturn
 		l.cur.Ret = s
 		l.cur = nil
@@ -364,6 +425,72 @@ func (l *lowerer) stmt(s ast.Stmt) {
 	default:
 		l.err = fmt.Errorf("statement %T outside the accepted subset", s)
 	}
+}
+
+func unparenIR(e ast.Expr) ast.Expr {
+	for {
+		p, ok := e.(*ast.ParenExpr)
+		if !ok {
+			return e
+		}
+		e = p.X
+	}
+}
+
+// callbackLoop lowers `return [!]slices.ContainsFunc(seq, func(p T) bool { body })` by the definition of ContainsFunc:
+//
+//	for _, p := range seq { <body, where `return e` reads: if e { return true } else continue> }; return false
+//
+// The loop is an ordinary loop of the function: it is cut at its head and needs an invariant (`loop N invariant`, N counted
+// in source order with the position of the call). Names in that invariant are resolved in the scope of the call, not of the
+// literal. The sequence is evaluated once, before the first call of the literal (as the argument of ContainsFunc is).
+func (l *lowerer) callbackLoop(ret *ast.ReturnStmt, call *ast.CallExpr, lit *ast.FuncLit, neg bool) {
+	if l.cb != nil {
+		l.err = fmt.Errorf("nested callback loops")
+		return
+	}
+	if lit.Type.Params == nil || len(lit.Type.Params.List) != 1 || len(lit.Type.Params.List[0].Names) != 1 {
+		l.err = fmt.Errorf("callback literal must have exactly one named parameter")
+		return
+	}
+	rs := &ast.RangeStmt{For: call.Pos(), X: call.Args[0], Tok: token.DEFINE, Body: lit.Body}
+	l.g.Callback[rs] = lit.Type.Params.List[0].Names[0]
+	l.g.rngN++
+	l.g.tagN++
+	aux := fmt.Sprintf("$cb%d", l.g.tagN)
+	l.add(&INode{Kind: NRangeInit, Range: rs})
+	head := l.newBlock(call.Pos(), "cbloop.head")
+	body := l.newBlock(lit.Body.Pos(), "cbloop.body")
+	next := l.newBlock(lit.Body.Rbrace, "cbloop.next")
+	found := l.newBlock(ret.Pos(), "cbloop.found")
+	done := l.newBlock(ret.End(), "cbloop.done")
+	l.jump(head)
+	l.cur = head
+	head.ScopePos = call.Pos()
+	l.branch(&Cond{Kind: CRangeHas, Range: rs}, body, done)
+	l.cur = body
+	l.add(&INode{Kind: NRangeBind, Range: rs})
+	// break/continue inside the literal cannot leave it: fresh target stacks
+	saveBrk, saveCont, saveFt := l.brk, l.cont, l.ft
+	l.brk, l.cont, l.ft = nil, nil, nil
+	l.cb = &cbCtx{aux: aux, found: found, next: next}
+	l.stmts(lit.Body.List)
+	l.cb = nil
+	l.brk, l.cont, l.ft = saveBrk, saveCont, saveFt
+	l.jump(next)
+	l.cur = next
+	l.add(&INode{Kind: NRangeNext, Range: rs})
+	l.jump(head)
+	mkRet := func(v bool) *ast.ReturnStmt {
+		name := "false"
+		if v != neg {
+			name = "true"
+		}
+		return &ast.ReturnStmt{Return: ret.Return, Results: []ast.Expr{&ast.Ident{NamePos: ret.Return, Name: name}}}
+	}
+	found.Kind, found.Ret = TReturn, mkRet(true)
+	done.Kind, done.Ret = TReturn, mkRet(false)
+	l.cur = nil
 }
 
 func (l *lowerer) push(brk, cont *Block, lbl string) {
